@@ -15,5 +15,6 @@ func main() {
 	hx.Register("explore", exploreMain)
 	hx.Register("reset", resetMain)
 	hx.Register("memfd", memfdMain)
+	hx.Register("fileops", fileopsMain)
 	hx.Main()
 }
